@@ -21,6 +21,11 @@ CLAIMED = {
     "C03": dict(category="other", technique="contract-based deductive verification of the kernel functions (pyvc + z3) + run-time contracts over exhaustively enumerated bounded domains", text="(in progress)", design_ref="DESIGN.md 4 (C03)", note=BASE_NOTE),
     "C17": dict(category="other", technique="run-time contracts on the real kernels over exhaustively enumerated bounded domains against a brute-force model of the inheritance process (bounded stand-in; no deductive contract discharged yet)", text="(in progress)", design_ref="DESIGN.md 4 (C17)", note=BASE_NOTE),
     "C18": dict(category="other", technique="run-time contracts on the real kernels over exhaustively enumerated bounded domains against a brute-force model of the inheritance process (bounded stand-in; no deductive contract discharged yet)", text="(in progress)", design_ref="DESIGN.md 4 (C18)", note=BASE_NOTE),
+    "C14": dict(category="exploration", technique="run-time contracts evaluated on the real functions over enumerated / seeded bounded domains (bounded stand-in: this Python glue is outside the reach of the VC generator)", text="(in progress)", design_ref="DESIGN.md 4 (C14)", note=BASE_NOTE),
+    "C13": dict(category="exploration", technique="run-time contracts evaluated on the real functions over enumerated / seeded bounded domains (bounded stand-in: this Python glue is outside the reach of the VC generator)", text="(in progress)", design_ref="DESIGN.md 4 (C13)", note=BASE_NOTE),
+    "C16": dict(category="exploration", technique="run-time contracts evaluated on the real functions over enumerated / seeded bounded domains (bounded stand-in: this Python glue is outside the reach of the VC generator)", text="(in progress)", design_ref="DESIGN.md 4 (C16)", note=BASE_NOTE),
+    "C20": dict(category="exploration", technique="run-time contracts evaluated on the real functions over enumerated / seeded bounded domains (bounded stand-in: this Python glue is outside the reach of the VC generator)", text="(in progress)", design_ref="DESIGN.md 4 (C20)", note=BASE_NOTE),
+    "C12": dict(category="exploration", technique="run-time contracts evaluated on the real functions over enumerated / seeded bounded domains (bounded stand-in: this Python glue is outside the reach of the VC generator)", text="(in progress)", design_ref="DESIGN.md 4 (C12)", note=BASE_NOTE),
     "C11": dict(
         category="proof",
         technique="contract-based deductive verification: sidecar contracts on the real functions, VCs generated from /repo source by pyvc, discharged by z3 (unbounded); run-time contracts on a bounded grid as stand-in for the not-yet-proved functions",
